@@ -629,6 +629,38 @@ fn one(bin: &std::path::Path, c: &Case) -> String {
     }
 }
 
+/// `one` under a wall-clock cap: `None` = still running after `secs` seconds (the child is killed)
+fn one_capped(bin: &std::path::Path, c: &Case, secs: f64) -> Option<String> {
+    let mut child = Command::new(bin)
+        .arg("c20-one")
+        .arg(serde_json::to_string(c).unwrap())
+        .stdin(Stdio::null())
+        .stderr(Stdio::null())
+        .stdout(Stdio::piped())
+        .spawn()
+        .ok()?;
+    let t0 = std::time::Instant::now();
+    loop {
+        match child.try_wait() {
+            Ok(Some(_)) => {
+                let mut txt = String::new();
+                if let Some(mut o) = child.stdout.take() {
+                    use std::io::Read;
+                    let _ = o.read_to_string(&mut txt);
+                }
+                return Some(txt.trim().to_string());
+            }
+            Ok(None) if t0.elapsed().as_secs_f64() > secs => {
+                let _ = child.kill();
+                let _ = child.wait();
+                return None;
+            }
+            Ok(None) => std::thread::sleep(std::time::Duration::from_millis(20)),
+            Err(_) => return None,
+        }
+    }
+}
+
 pub fn run(ctx: &mut Ctx) -> (String, Value, Vec<String>) {
     let quick = ctx.quick();
     let rel = std::env::current_exe().unwrap();
@@ -643,6 +675,7 @@ pub fn run(ctx: &mut Ctx) -> (String, Value, Vec<String>) {
     let mut samples = vec![];
     let mut nontrivial = 0u64;
     let mut skipped_total = 0u64;
+    let mut slow_not_hung = 0u64;
     for name in STREAMS {
         let cases = stream(name, quick);
         let hang_keys = std::sync::Mutex::new(std::collections::BTreeSet::new());
@@ -677,6 +710,21 @@ pub fn run(ctx: &mut Ctx) -> (String, Value, Vec<String>) {
                 }
                 for (idx, k) in &o.hangs {
                     let sym = if profile == "release" { "does-not-terminate-in-release-build" } else { "does-not-terminate-with-debug-assertions" };
+                    // the per-case watchdog ran while every core was busy with other shards: before
+                    // a hang is reported the case is re-run alone, in its own process, under a cap
+                    // ten times as long; a case that finishes there was merely slow (not a
+                    // violation of C20) and only its outcome is compared across the profiles
+                    let bin = if profile == "release" { &rel } else { &chk };
+                    if let Some(o1) = one_capped(bin, &cases[*idx], 10.0 * cap).filter(|o| o.starts_with("OK ")) {
+                        slow_not_hung += 1;
+                        let other = if profile == "release" { &chk } else { &rel };
+                        if let Some(o2) = one_capped(other, &cases[*idx], 10.0 * cap) {
+                            if o1 != o2 {
+                                ctx.violation(&format!("{k}#outcome-differs-between-profiles"), &format!("{k}: {profile} build gives {o1}, the other profile gives {o2} on {:?}", cases[*idx]), "c20-case", serde_json::to_value(&cases[*idx]).unwrap());
+                            }
+                        }
+                        continue;
+                    }
                     ctx.violation(&format!("{k}#{sym}"), &format!("{k}: {sym} (no result within {cap} s) on {:?}", cases[*idx]), "c20-case", serde_json::to_value(&cases[*idx]).unwrap());
                 }
             }
@@ -705,6 +753,7 @@ pub fn run(ctx: &mut Ctx) -> (String, Value, Vec<String>) {
         "streams": per_stream,
         "profiles": ["release (no debug assertions, no overflow checks)", "checked = release + debug-assertions + overflow-checks"],
         "watchdog_seconds_per_case": cap,
+        "watchdog_hits_that_finished_when_rerun_alone_under_ten_times_the_cap": slow_not_hung,
         "cases_skipped_because_their_shape_already_hung": skipped_total,
         "samples": samples,
         "exhaustive": skipped_total == 0,
